@@ -293,6 +293,24 @@ def main():
         if pid not in CHECKS:
             continue
         c = CHECKS[pid]
+        # what the last run of this check actually contained (from its evidence file): bounded stand-ins and Lean lemmas are
+        # named in the level note so that the claim can never be read as "everything proved"
+        extra = ""
+        ev = os.path.join(VERIF, "evidence", pid + ".json")
+        if os.path.exists(ev):
+            try:
+                cov = json.load(open(ev))["coverage"]
+                bnd = [b["id"].split("/", 1)[1] for b in cov.get("bounded_obligations", [])]
+                lean = sum(v for k, v in cov.get("obligations_by_backend", {}).items() if k.startswith("lean"))
+                if bnd:
+                    extra += " Bounded stand-ins in this check (labelled bounded, not counted as proved): %s." % "; ".join(bnd)
+                if lean:
+                    extra += " %d spec-level lemmas are discharged by Lean 4 + Mathlib (lean/Lemmas.lean)." % lean
+                if os.path.exists(os.path.join(VERIF, "contracts", pid + ".py")) and \
+                        "FALLBACK_REPLAY" in open(os.path.join(VERIF, "contracts", pid + ".py")).read():
+                    extra += " Refuted obligations without a model-specific replay are replayed through a property-level native oracle."
+            except Exception:  # noqa
+                pass
         checks.append({
             "property_id": pid,
             "quick_cmd": "./check %s --tier quick" % pid,
@@ -301,7 +319,7 @@ def main():
             "replay_cmd_template": "./check %s --replay {path}" % pid,
             "engine": c["engine"],
             "level_claimed": {"category": "proof", "text": c["text"], "design_ref": c["ref"]},
-            "level_note": c["note"],
+            "level_note": c["note"] + extra,
             "technique": c["technique"],
         })
     na = []
